@@ -14,7 +14,8 @@ type RV struct {
 	valid bool
 	t     types.Type
 	v     Value
-	ro    bool // reached through an unexported field
+	ro    bool // reached through an unexported field (reflect's flagStickyRO)
+	ero   bool // IS an unexported embedded field (flagEmbedRO): read-only itself, its exported fields are not
 	addr  bool // addressable
 }
 
@@ -128,7 +129,7 @@ func init() {
 		if !r.valid {
 			e.gopanic("reflect: CanInterface on zero Value")
 		}
-		return Bool(!r.ro)
+		return Bool(!r.ro && !r.ero)
 	})
 	R("Type", func(e *Exec, r RV, a []Value) Value {
 		if !r.valid {
@@ -140,7 +141,7 @@ func init() {
 		if !r.valid {
 			e.gopanic("reflect: call of reflect.Value.Interface on zero Value")
 		}
-		if r.ro {
+		if r.ro || r.ero {
 			e.gopanic("reflect.Value.Interface: cannot return value obtained from unexported field or method")
 		}
 		if kindOf(r.t) == reflect.Interface {
@@ -152,14 +153,14 @@ func init() {
 		e.mustKind(r, "Elem", reflect.Pointer, reflect.Interface)
 		if kindOf(r.t) == reflect.Interface {
 			x := rvOfIface(r.v.(Iface))
-			x.ro = r.ro
+			x.ro = r.ro || r.ero
 			return x
 		}
 		p := r.v.(Ptr)
 		if p.slot == nil {
 			return RV{}
 		}
-		return RV{valid: true, t: r.t.Underlying().(*types.Pointer).Elem(), v: copyVal(*p.slot), ro: r.ro, addr: true}
+		return RV{valid: true, t: r.t.Underlying().(*types.Pointer).Elem(), v: copyVal(*p.slot), ro: r.ro, ero: r.ero, addr: true}
 	})
 	R("Int", func(e *Exec, r RV, a []Value) Value {
 		e.mustKind(r, "Int", reflect.Int, reflect.Int8, reflect.Int16, reflect.Int32, reflect.Int64)
@@ -209,13 +210,13 @@ func init() {
 		switch v := r.v.(type) {
 		case Str:
 			i := e.rIndex(idx, v.Len())
-			return RV{valid: true, t: types.Typ[types.Uint8], v: v.At(i), ro: r.ro}
+			return RV{valid: true, t: types.Typ[types.Uint8], v: v.At(i), ro: r.ro || r.ero}
 		case Slice:
 			i := e.rIndex(idx, len(v.v))
-			return RV{valid: true, t: r.t.Underlying().(*types.Slice).Elem(), v: copyVal(v.v[i]), ro: r.ro, addr: true}
+			return RV{valid: true, t: r.t.Underlying().(*types.Slice).Elem(), v: copyVal(v.v[i]), ro: r.ro || r.ero, addr: true}
 		case Array:
 			i := e.rIndex(idx, len(v))
-			return RV{valid: true, t: r.t.Underlying().(*types.Array).Elem(), v: copyVal(v[i]), ro: r.ro, addr: r.addr}
+			return RV{valid: true, t: r.t.Underlying().(*types.Array).Elem(), v: copyVal(v[i]), ro: r.ro || r.ero, addr: r.addr}
 		}
 		panic("Index")
 	})
@@ -263,7 +264,7 @@ func init() {
 		if ent == nil {
 			return RV{}
 		}
-		return RV{valid: true, t: mt.Elem(), v: copyVal(ent.v), ro: r.ro || k.ro}
+		return RV{valid: true, t: mt.Elem(), v: copyVal(ent.v), ro: r.ro || r.ero || k.ro || k.ero}
 	})
 	R("MapKeys", func(e *Exec, r RV, a []Value) Value {
 		e.mustKind(r, "MapKeys", reflect.Map)
@@ -272,10 +273,10 @@ func init() {
 		var out []Value
 		if m != nil {
 			for _, k := range m.sortedKeys() {
-				out = append(out, RV{valid: true, t: mt.Key(), v: copyVal(m.m[k].k), ro: r.ro})
+				out = append(out, RV{valid: true, t: mt.Key(), v: copyVal(m.m[k].k), ro: r.ro || r.ero})
 			}
 			for _, ent := range m.sym {
-				out = append(out, RV{valid: true, t: mt.Key(), v: copyVal(ent.k), ro: r.ro})
+				out = append(out, RV{valid: true, t: mt.Key(), v: copyVal(ent.k), ro: r.ro || r.ero})
 			}
 		}
 		return Slice{o: e.newObj("mapkeys"), v: out, ok: true}
@@ -295,50 +296,29 @@ func init() {
 		}
 		st := r.t.Underlying().(*types.Struct)
 		if !name.Concrete() {
-			// symbolic field name: fork over the (promoted and direct) field names of the same length
-			found := ""
-			for i := 0; i < st.NumFields() && found == ""; i++ {
-				fn := st.Field(i).Name()
-				if len(fn) == name.Len() && e.decide(strEq(name, Str{s: fn})) {
-					found = fn
-				}
-				if st.Field(i).Embedded() {
-					if es, ok := st.Field(i).Type().Underlying().(*types.Struct); ok {
-						for j := 0; j < es.NumFields() && found == ""; j++ {
-							en := es.Field(j).Name()
-							if len(en) == name.Len() && e.decide(strEq(name, Str{s: en})) {
-								found = en
-							}
-						}
-					}
-				}
-			}
-			if found == "" {
+			found, ok := e.symFieldName(st, name)
+			if !ok {
 				return RV{}
 			}
 			name = Str{s: found}
 		}
-		sv := r.v.(Struct)
-		for i := 0; i < st.NumFields(); i++ {
-			f := st.Field(i)
-			if f.Name() == name.s {
-				return RV{valid: true, t: f.Type(), v: copyVal(sv[i]), ro: r.ro || !f.Exported(), addr: r.addr}
-			}
+		path, _ := lookupField(st, name.s)
+		if path == nil {
+			return RV{}
 		}
-		// promoted fields through embedded structs (one level)
-		for i := 0; i < st.NumFields(); i++ {
-			f := st.Field(i)
-			if f.Embedded() {
-				if es, ok := f.Type().Underlying().(*types.Struct); ok {
-					for j := 0; j < es.NumFields(); j++ {
-						if es.Field(j).Name() == name.s {
-							return RV{valid: true, t: es.Field(j).Type(), v: copyVal(sv[i].(Struct)[j]), ro: r.ro || !es.Field(j).Exported() || !f.Exported()}
-						}
-					}
+		cur := r
+		for _, i := range path {
+			if kindOf(cur.t) == reflect.Pointer { // embedded *T
+				p := cur.v.(Ptr)
+				if p.slot == nil {
+					e.gopanic("reflect: indirection through nil pointer to embedded struct")
 				}
+				cur = RV{valid: true, t: cur.t.Underlying().(*types.Pointer).Elem(), v: copyVal(*p.slot), ro: cur.ro, ero: cur.ero, addr: true}
 			}
+			f := cur.t.Underlying().(*types.Struct).Field(i)
+			cur = RV{valid: true, t: f.Type(), v: copyVal(cur.v.(Struct)[i]), ro: cur.ro || (!f.Exported() && !f.Embedded()), ero: !f.Exported() && f.Embedded(), addr: cur.addr}
 		}
-		return RV{}
+		return cur
 	})
 	R("MethodByName", func(e *Exec, r RV, a []Value) Value {
 		if !r.valid {
@@ -357,7 +337,7 @@ func init() {
 			if sel.Obj().Name() == name.s && sel.Obj().Exported() {
 				fn := e.prog.MethodValue(sel)
 				sig := sel.Type().(*types.Signature)
-				return RV{valid: true, t: sig, v: &BoundMethod{fn: fn, recv: r.v}, ro: r.ro}
+				return RV{valid: true, t: sig, v: &BoundMethod{fn: fn, recv: r.v}, ro: r.ro || r.ero}
 			}
 		}
 		return RV{}
@@ -503,23 +483,14 @@ func (e *Exec) rtypeMethod(rt Rtype, name string, args []Value) Value {
 		}
 		fname := args[0].(Str)
 		if !fname.Concrete() {
-			e.cut("unsupported-symbolic:Type.FieldByName")
-		}
-		for i := 0; i < st.NumFields(); i++ {
-			if st.Field(i).Name() == fname.s {
-				return Tuple{mk([]int{i}, st.Field(i)), tTrue}
+			found, ok := e.symFieldName(st, fname)
+			if !ok {
+				return Tuple{zero(sft), tFalse}
 			}
+			fname = Str{s: found}
 		}
-		for i := 0; i < st.NumFields(); i++ { // promoted through one embedded struct
-			if f := st.Field(i); f.Embedded() {
-				if es, ok := f.Type().Underlying().(*types.Struct); ok {
-					for j := 0; j < es.NumFields(); j++ {
-						if es.Field(j).Name() == fname.s {
-							return Tuple{mk([]int{i, j}, es.Field(j)), tTrue}
-						}
-					}
-				}
-			}
+		if path, f := lookupField(st, fname.s); path != nil {
+			return Tuple{mk(path, f), tTrue}
 		}
 		return Tuple{zero(sft), tFalse}
 	case "NumField":
@@ -550,6 +521,87 @@ func (e *Exec) rtypeMethod(rt Rtype, name string, args []Value) Value {
 
 var _ = sort.Strings
 
+// lookupField: the index path of field name in st as reflect's FieldByName finds it - a direct field,
+// or one promoted through embedded structs / pointers to structs (breadth first, two levels).
+func lookupField(st *types.Struct, name string) ([]int, *types.Var) {
+	for i := 0; i < st.NumFields(); i++ {
+		if st.Field(i).Name() == name {
+			return []int{i}, st.Field(i)
+		}
+	}
+	emb := func(f *types.Var) *types.Struct {
+		if !f.Embedded() {
+			return nil
+		}
+		t := f.Type().Underlying()
+		if p, ok := t.(*types.Pointer); ok {
+			t = p.Elem().Underlying()
+		}
+		es, _ := t.(*types.Struct)
+		return es
+	}
+	for i := 0; i < st.NumFields(); i++ {
+		if es := emb(st.Field(i)); es != nil {
+			for j := 0; j < es.NumFields(); j++ {
+				if es.Field(j).Name() == name {
+					return []int{i, j}, es.Field(j)
+				}
+			}
+		}
+	}
+	for i := 0; i < st.NumFields(); i++ {
+		if es := emb(st.Field(i)); es != nil {
+			for j := 0; j < es.NumFields(); j++ {
+				if es2 := emb(es.Field(j)); es2 != nil {
+					for k := 0; k < es2.NumFields(); k++ {
+						if es2.Field(k).Name() == name {
+							return []int{i, j, k}, es2.Field(k)
+						}
+					}
+				}
+			}
+		}
+	}
+	return nil, nil
+}
+
+// fieldNames: every name lookupField can find in st
+func fieldNames(st *types.Struct, depth int) []string {
+	var out []string
+	for i := 0; i < st.NumFields(); i++ {
+		out = append(out, st.Field(i).Name())
+	}
+	if depth > 0 {
+		for i := 0; i < st.NumFields(); i++ {
+			if f := st.Field(i); f.Embedded() {
+				t := f.Type().Underlying()
+				if p, ok := t.(*types.Pointer); ok {
+					t = p.Elem().Underlying()
+				}
+				if es, ok := t.(*types.Struct); ok {
+					out = append(out, fieldNames(es, depth-1)...)
+				}
+			}
+		}
+	}
+	return out
+}
+
+// symFieldName: a symbolic field name is decided against every name the struct knows (fork per name)
+func (e *Exec) symFieldName(st *types.Struct, name Str) (string, bool) {
+	seen := map[string]bool{}
+	for _, fn := range fieldNames(st, 2) {
+		if seen[fn] {
+			continue
+		}
+		seen[fn] = true
+		if len(fn) == name.Len() && e.decide(strEq(name, Str{s: fn})) {
+			return fn, true
+		}
+	}
+	return "", false
+}
+
 func init() {
 	R := func(name string, f func(e *Exec, r RV, a []Value) Value) {
 		intrinsics["(reflect.Value)."+name] = func(e *Exec, a []Value) Value { return f(e, a[0].(RV), a[1:]) }
@@ -563,13 +615,13 @@ func init() {
 				if p.slot == nil {
 					e.gopanic("reflect: indirection through nil pointer to embedded struct")
 				}
-				cur = RV{valid: true, t: cur.t.Underlying().(*types.Pointer).Elem(), v: copyVal(*p.slot), ro: cur.ro, addr: true}
+				cur = RV{valid: true, t: cur.t.Underlying().(*types.Pointer).Elem(), v: copyVal(*p.slot), ro: cur.ro, ero: cur.ero, addr: true}
 			}
 			e.mustKind(cur, "FieldByIndex", reflect.Struct)
 			st := cur.t.Underlying().(*types.Struct)
 			i := e.rIndex(iv.(*Term), st.NumFields())
 			f := st.Field(i)
-			cur = RV{valid: true, t: f.Type(), v: copyVal(cur.v.(Struct)[i]), ro: cur.ro || !f.Exported(), addr: cur.addr}
+			cur = RV{valid: true, t: f.Type(), v: copyVal(cur.v.(Struct)[i]), ro: cur.ro || (!f.Exported() && !f.Embedded()), ero: !f.Exported() && f.Embedded(), addr: cur.addr}
 		}
 		return cur
 	})
@@ -600,7 +652,7 @@ func init() {
 		st := r.t.Underlying().(*types.Struct)
 		i := e.rIndex(a[0].(*Term), st.NumFields())
 		f := st.Field(i)
-		return RV{valid: true, t: f.Type(), v: copyVal(r.v.(Struct)[i]), ro: r.ro || !f.Exported(), addr: r.addr}
+		return RV{valid: true, t: f.Type(), v: copyVal(r.v.(Struct)[i]), ro: r.ro || (!f.Exported() && !f.Embedded()), ero: !f.Exported() && f.Embedded(), addr: r.addr}
 	})
 	intrinsics["reflect.SliceOf"] = func(e *Exec, a []Value) Value {
 		return e.rtypeIface(types.NewSlice(a[0].(Iface).v.(Rtype).t))
